@@ -32,6 +32,16 @@ CHECKS = {
         "note": "Trusted: Python ast, E1 resolver, numpy indexing/broadcast semantics, np.dot, the reference forms.",
         "technique": "static analysis: abstract evaluation of kernels to polynomial normal forms + canonical-form equality; counter typestate; zero-test guard rule; call-site guard/argument rule over the resolved call graph",
     },
+    "C01": {
+        "text": "Decides, for every mask and value array, that slim index k is the k-th unmasked pixel in row-major order in every producer (7 gather / counting nests, 1-D and 2-D: counter from 0, +1 exactly once per unmasked "
+                "pixel, full ranges with axis 0 outer, stores at the pre-increment counter), that each gather stores the value at the loop position into an array sized by the unmasked count of the same mask, that the "
+                "3 scatters write slim entry k at native_index_for_slim_index[k] (row, column) for all k into zeros of the native shape, that slim->native composes the index list of the same mask, that masked / unmasked "
+                "flattened-index lists come from one flag-parameterised nest recording the row-major flat index, that native inputs are multiplied by the inverted mask on every non-skip path of the three converters, that the "
+                "10 .slim/.native properties re-enter the constructor on self.mask with store_native False/True, and that grid components are converted and re-stacked in (y, x) order. Values are only copied, so nothing numerical remains; "
+                "trusted: numpy indexing/assignment and np.stack ordering.",
+        "note": "Trusted: Python ast, E1 resolver, numpy basic indexing/assignment semantics. 1-D converters do not zero masked entries of a native input and the property does not ask them to.",
+        "technique": "static analysis: slim-traversal typestate over abstract kernel summaries; canonical-form equality of stored payloads and scatter targets; guard dominance; constructor wiring rule",
+    },
 }
 
 NOT_APPLICABLE = {f"C{n:02d}": PENDING for n in range(1, 21) if f"C{n:02d}" not in CHECKS}
